@@ -397,6 +397,25 @@ def lark_terminals(rules: dict[str, tuple[str, Any]]) -> tuple[list[str], list[s
 	return strings, regexps
 
 
+def case_neighbours(strings: list[str], regexps: list[str]) -> list[str]:
+	"""Identifiers that equal a word of the grammar UP TO LETTER CASE — `true`, `TRUE`, `none`, `And`, `IF`, `Lambda` …: for CPython they are
+	plain names; an engine that compares terminals loosely reads them as the constant / keyword. Words = the identifier-shaped string
+	terminals and the alternatives of regexp terminals that are plain words (`False|True`), read from the grammar text. All case variants
+	of the words regexp terminals match (they sit BEFORE `var` in `atom`), one or two per keyword."""
+	words_rx: list[str] = []
+	for rx in regexps:
+		if re.fullmatch(r'[A-Za-z_]+(\|[A-Za-z_]+)*', rx):
+			words_rx += rx.split('|')
+	words_kw = [s for s in strings if re.fullmatch(r'[A-Za-z_]+', s)]
+	taken = set(words_rx) | set(words_kw) | PY_KEYWORDS
+	out: list[str] = []
+	for w in words_rx:
+		out += [w.lower(), w.upper(), w.swapcase(), w[0].swapcase() + w[1:], w[:-1] + w[-1].swapcase()]
+	for i, w in enumerate(words_kw):
+		out += [w.upper(), w.capitalize(), w.lower()] if w[0].isupper() else [(w.upper(), w.capitalize())[i % 2]]
+	return [v for v in dict.fromkeys(out) if v not in taken and re.fullmatch(r'[A-Za-z_]\w*', v)]
+
+
 class Sampler:
 	"""Random derivations from an independently read grammar (`read_lark`). String terminals are emitted literally, every
 	regexp terminal samples from a pool validated with `re.fullmatch` and against the grammar's keyword (terminal) list."""
@@ -410,7 +429,8 @@ class Sampler:
 		strings, regexps = lark_terminals(grammar)
 		self.keywords = set(strings) | set(regexps)
 		self.pools: dict[str, list[str]] = {}
-		candidates = NAME_POOL + STRING_POOL + DIGIT_POOL + DECIMAL_POOL + ['True', 'False', '<', '>', '==', '<=', '>=', '!=', '+', '-', '*', '/', '%', '**', '?', '1']
+		self.case_neighbours = case_neighbours(strings, regexps)
+		candidates = NAME_POOL + self.case_neighbours + STRING_POOL + DIGIT_POOL + DECIMAL_POOL + ['True', 'False', '<', '>', '==', '<=', '>=', '!=', '+', '-', '*', '/', '%', '**', '?', '1']
 		for rx in regexps:
 			pool = [s for s in candidates if re.fullmatch(rx, s) and s not in self.keywords]
 			if rx == '[a-zA-Z_]\\w*':
@@ -600,6 +620,8 @@ REGEXP_TERMINALS = ['/a/', '/[a-z]+/', '/\\d+/', '/[+-]/', '/x|y/', '/[\\/]/', '
 	'/a\\//', '/\\//', '/<\\//', '/\\/a/', '/\\/\\//', '/[a]/', '/(a)/', '/"/', '/a"/']
 # backslash runs of length 1..5 directly before the delimiter: odd runs escape it (it stays inside the terminal), even runs do not
 REGEXP_TERMINALS += [r'/a\/b/', r'/a\\/', r'/a\\\/b/', r'/\\\//', r'/a\\\\/', r'/a\\\\\/b/', r'/[a-z]:\\\/\w+/', r'/\\\\\//']
+# longer than two characters but beginning with a backslash escape, and several escapes in a row: only the exact two-character forms are control codes
+STRING_TERMINALS += [r'"\nil"', r'"\tab"', r'"\r\n"', r'"\t\t"', r'"\n\n"', r'"\fx"', r'"\rx"', r'"\n "', r'"x\n"']
 STRING_TERMINALS += [r'"a\\"', r'"a\\\\"', r'"\\\\"', r'"x\\y"', r'"x\\\y"']
 # raw ASCII control characters other than TAB/LF/CR inside terminals (form feed, vertical tab, FS, GS, RS): printed raw, lexed raw
 STRING_TERMINALS += ['"\x0c"', '"a\x0cb"', '"\x0b"', '"a\x1cb"', '"\x1d"', '"x\x1e"']
